@@ -2195,7 +2195,15 @@ class TLSConnection(TLSRecordLayer):
                 else:
                     assert curve_name == 'brainpoolP512r1'
                     sig_alg_for_curve = 'sha512'
-                if sig_alg_for_curve not in settings.ecdsaSigHashes:
+                if curve_name.startswith('brainpool'):
+                    # brainpool keys use the dedicated TLS 1.3 schemes, which
+                    # are advertised from more_sig_schemes
+                    advertised = "ecdsa_{0}tls13_{1}".format(
+                        curve_name, sig_alg_for_curve) in \
+                        settings.more_sig_schemes
+                else:
+                    advertised = sig_alg_for_curve in settings.ecdsaSigHashes
+                if not advertised:
                     for result in self._sendError(
                             AlertDescription.illegal_parameter,
                             "Peer selected certificate with ECDSA curve we "
